@@ -14,7 +14,7 @@ import (
 func init() {
 	register(&Prop{
 		ID:          "C15",
-		Explanation: "Decides which request data can reach the bypass decisions: the string given to every skip-auth route regex is, on every path, query- and fragment-free — the Path of url.Parse(u), u cut at the first '?', or u itself under the fact that it contains no '?', where u is the guarded request-URI accessor's result (taint rule, unknown origin = violation); isAllowedMethod is true only for an empty rule method or equality with req.Method, isAllowedRoute only when both predicates hold for the same route element, isAllowedPath returns the negated match exactly under route.negate, and the rule builder upper-cases the method and sets negate from '!='; preflight needs the flag and OPTIONS (C01.R4); isTrustedIP is true only as trustedIPs.Has(ip) for the non-nil, error-free result of GetClientIP(p.realClientIPParser, req); NetSet.Has is true only on a hit of ipNetMap.has for the same address, which is a lookup of Mask(ip, m.mask).String(); AddIPNet inserts IP.String() only into a per-mask map whose mask size was compared equal to the network's (or recurses after creating one with the network's mask), and both sides select the family through getNetMaps; ParseIPNet rejects CIDRs with host bits set. Added during the build: the address used for the trusted-IP decision is parsed from the first comma-separated element of the configured header (R6). Round 3: the host-bit test compares ipNet.IP with the address exactly as parsed (under R5); the header parser exists only under reverse-proxy mode (R7); remote-address rule (R8). Round 4: the operand of the rule match is the decoded path (url.URL.Path), never the percent-encoded spelling (under R1); the operator's skip-auth routes, skip-auth regexes and trusted-IP entries are never rewritten between option loading and the code that compiles them (R9).",
+		Explanation: "Decides which request data can reach the bypass decisions: the string given to every skip-auth route regex is, on every path, query- and fragment-free — the Path of url.Parse(u), u cut at the first '?', or u itself under the fact that it contains no '?', where u is the guarded request-URI accessor's result (taint rule, unknown origin = violation); isAllowedMethod is true only for an empty rule method or equality with req.Method, isAllowedRoute only when both predicates hold for the same route element, isAllowedPath returns the negated match exactly under route.negate, and the rule builder upper-cases the method and sets negate from '!='; preflight needs the flag and OPTIONS (C01.R4); isTrustedIP is true only as trustedIPs.Has(ip) for the non-nil, error-free result of GetClientIP(p.realClientIPParser, req); NetSet.Has is true only on a hit of ipNetMap.has for the same address, which is a lookup of Mask(ip, m.mask).String(); AddIPNet inserts IP.String() only into a per-mask map whose mask size was compared equal to the network's (or recurses after creating one with the network's mask), and both sides select the family through getNetMaps; ParseIPNet rejects CIDRs with host bits set. Added during the build: the address used for the trusted-IP decision is parsed from the first comma-separated element of the configured header (R6). Round 3: the host-bit test compares ipNet.IP with the address exactly as parsed (under R5); the header parser exists only under reverse-proxy mode (R7); remote-address rule (R8). Round 4: the operand of the rule match is the decoded path (url.URL.Path), never the percent-encoded spelling (under R1); the operator's skip-auth routes, skip-auth regexes and trusted-IP entries are never rewritten between option loading and the code that compiles them (R9). Round 6: no module code writes Request.RemoteAddr (under R8); the option loader's viper switches are a reviewed closed list (under R9).",
 		NotDecided:  "the regular-expression engine, CIDR mask arithmetic over all addresses, IPv4-mapped IPv6 normalisation inside net.IP (values).",
 		Run:         runC15,
 	})
@@ -33,7 +33,7 @@ func runC15(c *Ctx) {
 	r.Rule("R7-header-parser-only-in-reverse-proxy", "the real-client-IP header parser is installed only under reverse-proxy mode (shared with C16.R4)", 1)
 	runParserUnderFlag(c, "R7-header-parser-only-in-reverse-proxy")
 	r.Rule("R9-rules-reach-matcher-verbatim", "the operator's skip-auth routes, skip-auth regexes and trusted-IP entries are never rewritten between option loading and the code that compiles them (no element store, reordering or reassignment outside pkg/apis/options); the loader installs no decode hook of its own and uses only its reviewed switches", 5)
-	r.Rule("R8-remote-address", "without a header parser the client address is the host part of RemoteAddr that net.ParseIP accepted", 2)
+	r.Rule("R8-remote-address", "without a header parser the client address is the host part of RemoteAddr that net.ParseIP accepted; nothing overwrites RemoteAddr", 3)
 	runRemoteIPRule(c, "R8-remote-address")
 
 	checkBypassOperand(c, "R1-query-free-match")
@@ -941,6 +941,23 @@ func runParserUnderFlag(c *Ctx, rule string) {
 // connection's RemoteAddr: getRemoteIP returns an address only as net.ParseIP(SplitHostPort(req.RemoteAddr)#0)
 // (non-nil, split error-free) and GetClientIP hands that through when no parser is configured.
 func runRemoteIPRule(c *Ctx, rule string) {
+	// the peer address is what the server recorded: no module code writes Request.RemoteAddr (a logging or listener
+	// helper that "normalises" it — a unix-socket peer "@" shown as 127.0.0.1 — changes the address the trusted-IP
+	// decision is made on for every later handler of the same request)
+	if raF := c.P.Field("net/http.Request.RemoteAddr"); raF != nil {
+		writes := 0
+		for _, ref := range c.fieldRefs(raF) {
+			if ref.Store != nil {
+				writes++
+				c.bad(rule, "remote-addr-written|"+fnKey(ref.Fn), ref.In, "Request.RemoteAddr is overwritten: the address the trusted-IP exemption is decided on is no longer the peer the server recorded (a unix-socket peer has no IP address and must never match a trusted network)", nil, 0)
+			}
+		}
+		if writes == 0 {
+			c.R.OK(rule, "remote-addr-written|none", "-", "no module code writes Request.RemoteAddr")
+		}
+	} else {
+		c.R.Unknown(rule, "anchor:Request.RemoteAddr", "-", "net/http.Request.RemoteAddr not found")
+	}
 	getRemote := c.Fn(rule, "pkg/ip.getRemoteIP")
 	getClient := c.Fn(rule, "pkg/ip.GetClientIP")
 	parseIP := c.StdFunc(rule, "net.ParseIP")
